@@ -109,6 +109,7 @@ class Decoder:
         self.t0 = dt(2026, 1, 1, 12, 0, 0)
         self.n = 0
         self.ndec = self.nok = 0
+        self.first: dict[str, tuple[dict, Any]] = {}   # frame -> (event, dtm) of its first decode in this process
         self.caches = self._find_caches()
         from ramses_tx.ramses import CODES_SCHEMA
 
@@ -146,6 +147,13 @@ class Decoder:
                 c.cache_clear()
 
     def decode(self, frame: str, pid: int, item_no: int = 0, dtm: Any = None) -> tuple[dict, dict]:
+        used = dtm if dtm is not None else self.t0 + td(seconds=3607 * item_no)
+        e, info = self._decode(frame, pid, item_no, dtm)
+        if frame not in self.first:
+            self.first[frame] = (dict(e), used)
+        return e, info
+
+    def _decode(self, frame: str, pid: int, item_no: int = 0, dtm: Any = None) -> tuple[dict, dict]:
         """One decode of `frame` (a fresh Packet object at a fresh timestamp).  Returns (event, info)."""
         self.n += 1
         self.ndec += 1
@@ -477,15 +485,21 @@ def main(tier: str, replay: str | None) -> None:
         # time siblings first: their oracle needs a parent process that has not decoded anything yet
         sib_frames: list[str] = []
         seen_vc: set[tuple[str, str]] = set()
-        for g in gfs:
-            if (g.code, g.verb) not in seen_vc:
-                seen_vc.add((g.code, g.verb))
-                sib_frames.append(g.frame)
-        for f in cf:    # and one real frame of every verb/code the corpus has
+        cnt_vc: dict[tuple, int] = {}
+
+        def shape_key(f: str, src: str) -> tuple:   # verb, code, which address slots are used, payload length
             ff = gen.frame_fields(f)
-            if (ff[5], ff[0], "corpus") not in seen_vc:
-                seen_vc.add((ff[5], ff[0], "corpus"))  # type: ignore[arg-type]
+            return (ff[5], ff[0], tuple(a[:2] == "--" for a in ff[2:5]), ff[6], src)
+
+        for g in gfs:   # one regex member of every verb/code/address shape/length ...
+            if cnt_vc.get(shape_key(g.frame, "re"), 0) < 1:
+                cnt_vc[shape_key(g.frame, "re")] = 1
+                sib_frames.append(g.frame)
+        for f in cf:    # ... and two real frames of each the corpus has
+            if cnt_vc.get(shape_key(f, "corpus"), 0) < 2:
+                cnt_vc[shape_key(f, "corpus")] = cnt_vc.get(shape_key(f, "corpus"), 0) + 1
                 sib_frames.append(f)
+        sib_frames = list(dict.fromkeys(sib_frames))
         oracle = time_sibling_oracle(sib_frames, max(2, b["workers"]))
         stats["t_oracle"] = round(time.time() - t0, 1)
         dec = Decoder()
@@ -493,6 +507,7 @@ def main(tier: str, replay: str | None) -> None:
         for f in sib_frames:
             recs.append(run_time_siblings(dec, f, oracle))
         src_count["time_sibling_items"] = len(sib_frames)
+        stats["_sib"] = (sib_frames, oracle)
         bursts_left = b["real_bursts"]
         hi = 0
 
@@ -575,6 +590,28 @@ def main(tier: str, replay: str | None) -> None:
                     hist = hist[:1] + (("evict", ""),) + hist[1:] + (("dec", "A"),)
             rb = real() if any(s[0] == "evict" for s in hist) else False
             recs.append(run_item(dec, hist, frames, rel, rb))
+        # at the very end - after everything this process has decoded - the sibling frames once more, against their
+        # decode in a process where nothing had been decoded: whatever any earlier packet left behind (a rewritten
+        # module-level table, a poisoned cache) shows here
+        sib_frames, oracle = stats.pop("_sib")
+        t1 = dt.fromisoformat(T_SIB[0])
+        for f in sib_frames:
+            item = {"np": 1, "rel": [], "ev": [oracle[f, T_SIB[0]][0], dec.decode(f, 1, dtm=t1)[0]]}
+            recs.append({"item": item, "meta": {"frames": {"A": f}, "time_siblings": [T_SIB[0]], "after_everything": True,
+                                                "hist": [["iso", "A"], ["dec", "A"]], "rel": [],
+                                                "infos": {"A": oracle[f, T_SIB[0]][1]}, "real_burst": False}})
+        src_count["after_everything_items"] = len(sib_frames)
+        # ... and (no oracle needed) every real frame, and a third of the others, once more against its own *first*
+        # decode in this process, at the timestamp it had then - however many thousand packets ago that was
+        cfs = set(cf)
+        again = [f for i, f in enumerate(dec.first) if f in cfs or i % 3 == 0]
+        for f in again:
+            e0, t_first = dec.first[f]
+            item = {"np": 1, "rel": [], "ev": [dict(e0, p=1), dec.decode(f, 1, dtm=t_first)[0]]}
+            recs.append({"item": item, "meta": {"frames": {"A": f}, "first_vs_last": True,
+                                                "hist": [["dec", "A"], ["...", ""], ["dec", "A"]], "rel": [],
+                                                "infos": {}, "real_burst": False}})
+        src_count["first_vs_last_items"] = len(again)
         stats["t_exec"] = round(time.time() - t0, 1)
 
         t0 = time.time()
